@@ -16,8 +16,8 @@ ID = "C10"
 MODULE = "DaliVerif.Props.C10"
 EXES = ["m_memseq"]
 GEN = True
-THEOREMS = ["write_refused_early", "write_ok_spec", "write_not_writable", "write_fault_loud",
-            "writeLoop_spec", "tables_ok"]
+THEOREMS = ["write_refused_early", "write_ok_spec", "write_ok_spec_unlock", "writeAll_spec",
+            "write_not_writable", "write_fault_loud", "writeLoop_spec", "tables_ok"]
 TRUSTED = [
     "hand-written model Model/MemSeq.lean (writeRaw) of dali/memory/location.py (tied by this lock-step correspondence)",
     "specification unit Spec/MemUnit.lean = my reading of IEC 62386-102 §9.10 (DESIGN Appendix A); the only oracle",
@@ -143,7 +143,7 @@ def _correspond(ctx, corr, rng, T, ls):
         nloc = len(v.locations)
         writable = all(l.type_.name in WRITEABLE for l in v.locations)
         lens = sorted(set([nloc, nloc - 1, nloc + 1, 0, 1]))
-        for ln in lens:
+        for ln in lens + [nloc] * (6 if T else 2):
             if ln < 0:
                 continue
             for short in (False, True):
@@ -259,7 +259,7 @@ def replay(ctx, payload):
     for t in trace:
         print("   %s %d 0x%x -> %s" % t)
     print("real code outcome:", end)
-    print("driver verdict:", res.get("raw", "")[:300])
+    print("driver verdict:", res.get("answer", "")[:300])
     print("unit afterwards:", state[:80])
     silent = v.get("key", "").endswith(":silent") and end.startswith("ok")
     return silent or res.get("post", "ok") != "ok" or res.get("sync") != "1" or \
